@@ -111,7 +111,7 @@ func c02EnumCount(tier string) int {
 
 func (c02) NRuns(tier string) int {
 	if tier == "thorough" {
-		return c02EnumCount(tier) + 300000
+		return c02EnumCount(tier) + 1000000
 	}
 	return c02EnumCount(tier) + 3000
 }
